@@ -7,6 +7,7 @@ EXTREMES = "seq"   # worker re-labels every sixth case to the ends of the legal 
 RESTATE = "seq"    # worker adds a signature restating the one in force to every fifth case (gen.restate_signatures)
 SHUFFLE = "seq"    # worker: every seventh case is built by add_absolute_message in shuffled order
 CANONICAL_ABS = True   # the function under test pairs / merges over the canonically sorted list (oracle.abs_order)
+SCALE = True   # worker: every fortieth case is blown up by scale_case below
 PROP = "C06"
 MONITORS = ["qnl"]
 INSITU = {"k": "quantise or composition or tokenisation or bar or track or example or transpose"}
@@ -20,6 +21,25 @@ FLOORS = {"quick": {"qnl.closest_fit.armed": 5000, "qnl.removed_only_if_nothing_
           "thorough": {"qnl.closest_fit.armed": 100000, "qnl.removed_only_if_nothing_fits.armed": 5000}}
 VALUES = [None, [24, 12, 6], [4, 8, 16], [24, 12, 6, 16, 8, 4, 36, 18, 9], [5], [3, 7, 30], [48, 2], [12]]
 
+
+def scale_case(case, i):
+    sp = case["seq"]
+    sp["notes"] = gen.big_notes(i, chans=(0, 1, 2), pitches=(60, 61, 62, 63, 64), lmin=1, lmax=45, gap=(0, 30))
+    if (i // 40) % 6 == 0:
+        # a steady trill of two neighbouring pitches in one channel, thousands of notes, running past tick 2**16
+        import random
+        r = random.Random(f"c06-trill:{i}")
+        notes, t = [], 0
+        for k in range(r.choice([6200, 6600])):
+            ln = r.choice([18, 19, 20, 21])                     # the same pitch returns every ~22 ticks
+            notes.append([0, 61 + k % 2, t, ln, 1 + k % 127])
+            t += 11
+        sp["notes"] = notes
+        case["values"], case["dne"] = [12, 24], False          # the closest value (24) does not fit before the next strike
+    sp.pop("pad", None)
+    case["prefix"] = []
+    if (i // 41) % 2 == 1 and (i // 40) % 6 != 0:
+        case["values"] = sorted(set(list(range(1, 40, 2)) + [48, 64, 72, 96, 128, 144, 192]), reverse=True)
 
 def make_case(rng, i, tier):
     chans = rng.choice([(0,), (0,), (0, 1), (0, 1, 2), (3,)])
